@@ -88,6 +88,16 @@ def check_operator(ctx, art, via, out):
         desc = "%s [%s]" % (op, fam)
         objs = [op] + ([terms[0]] if len(terms) == 1 else [])  # a single term also as a bare PauliTerm
         for o in objs:
+            # serialisation shares one process: an operator that is NEARLY this one (every coefficient shifted by a few 1e-7: a
+            # finite-difference step; equal under the operators' tolerant == and hash) is serialised first, and once more afterwards
+            near = None
+            if via in ("dict", "json", "path"):
+                try:
+                    nt = [PauliTerm(dict(t._ops), complex(t.coefficient) * (1 + 3e-7) + 2e-7) for t in o.terms]
+                    near = PauliSum(nt) if isinstance(o, PauliSum) else nt[0]
+                    convert_op_to_dict(near)
+                except Exception:
+                    near = None
             snap = Snap([o])
             try:
                 if via == "dict":
@@ -125,6 +135,13 @@ def check_operator(ctx, art, via, out):
                 continue
             if snap.changed():
                 out.append((via + ":mutated", "%s: the route %s modified the operator" % (desc, via)))
+            if near is not None:
+                try:
+                    back_near = convert_dict_to_op(json.loads(json.dumps(convert_op_to_dict(near))))
+                    if not same_matrix(back_near, near):
+                        out.append((via + ":neighbour", "%s: after it had been serialised, the nearly equal operator %r came back as %r" % (desc, near, back_near)))
+                except Exception as ex:
+                    out.append((via + ":neighbour-raises", "%s: serialising a nearly equal operator afterwards raised %s: %s" % (desc, type(ex).__name__, str(ex)[:150])))
             if not same_matrix(back, o):
                 out.append((via + ":matrix", "%s through %s came back as %s (another matrix)" % (desc, via, back)))
             elif via != "text" and art["simplified"] and not same_terms_exact(PauliSum(list(back.terms)), PauliSum(list(o.terms))):
